@@ -61,7 +61,8 @@ func TestC11Race(t *testing.T) {
 	c11LockDep = ld
 	client.VerifLockEvent = ld.event
 	defer func() {
-		client.VerifLockEvent = nil
+		// the hook stays installed: renewal goroutines of destroyed clients may still be on their way out and
+		// read it (resetting it here would be a data race of the harness's own making)
 		for _, l := range ld.report() {
 			fmt.Println(l)
 		}
